@@ -16,8 +16,26 @@ DOT = "((x0 - x1) * (x2 - x1) + (y0 - y1) * (y2 - y1))"
 L2 = "((x2 - x1) * (x2 - x1) + (y2 - y1) * (y2 - y1))"
 
 
+_LA = z3.ArraySort(z3.IntSort(), z3.IntSort())
+IDXIN = z3.Function("index_in", _LA, z3.IntSort(), z3.IntSort(), z3.IntSort())      # position of an object in a list of distinct objects
+
+
+def ax_idxin():
+    """definition of index_in on lists of pairwise distinct references: if l[p] is o (0 <= p < n) then index_in(l, n, o) = p"""
+    l, n, o, p, a, b = z3.Const("l!x", _LA), z3.Int("n!x"), z3.Int("o!x"), z3.Int("p!x"), z3.Int("a!x"), z3.Int("b!x")
+    dist = z3.ForAll([a, b], z3.Implies(z3.And(0 <= a, a < b, b < n), z3.Select(l, a) != z3.Select(l, b)))
+    return [z3.ForAll([l, n, p], z3.Implies(z3.And(dist, 0 <= p, p < n), IDXIN(l, n, z3.Select(l, p)) == p),
+                      patterns=[IDXIN(l, n, z3.Select(l, p))])]
+
+
+def sf_idxin(ex, st, l, o):
+    return vint(IDXIN(l.terms[1], l.terms[0], o.terms[0]))
+
+
 def register(reg):
     track_model.register(reg)
+    reg.specfuncs.update(idxin=sf_idxin)
+    reg.axioms.append(("index_in", ax_idxin))
     NN = ["not isnan(x0) and not isnan(y0) and not isnan(x1) and not isnan(y1) and not isnan(x2) and not isnan(y2)"]
     P = dict(x0="float", y0="float", x1="float", y1="float", x2="float", y2="float")
     TCW_ = "(0 if (psn / l) <= 0 else (1 if (psn / l) >= 1 else (psn / l)))"
@@ -41,15 +59,63 @@ def register(reg):
                          "use distrib(psn / l, 1, x1 - x2)", "use distrib(psn / l, 1, y1 - y2)",
                          ("clamp-x-is-clamping-the-parameter", "xproj == x1 + (0 if (psn / l) <= 0 else (1 if (psn / l) >= 1 else (psn / l))) * (x2 - x1)"),
                          ("clamp-y-is-clamping-the-parameter", "yproj == y1 + (0 if (psn / l) <= 0 else (1 if (psn / l) >= 1 else (psn / l))) * (y2 - y1)")]},
+                 ensures_local=[("distance-to-a-point-of-the-segment",
+                           "implies(x1 != x2 or y1 != y2, result * result == (x0 - (x1 + TCW * (x2 - x1))) * (x0 - (x1 + TCW * (x2 - x1))) + "
+                           "(y0 - (y1 + TCW * (y2 - y1))) * (y0 - (y1 + TCW * (y2 - y1))))".replace("TCW", TCW_))],
                  ensures=[("non-negative", "not isnan(result) and result >= 0"),
                           ("distance-to-the-single-point", "implies(x1 == x2 and y1 == y2, result * result == (x0 - x1) * (x0 - x1) + (y0 - y1) * (y0 - y1))"),
-                          ("distance-to-a-point-of-the-segment",
-                           "implies(x1 != x2 or y1 != y2, result * result == (x0 - (x1 + TCW * (x2 - x1))) * (x0 - (x1 + TCW * (x2 - x1))) + "
-                           "(y0 - (y1 + TCW * (y2 - y1))) * (y0 - (y1 + TCW * (y2 - y1))))".replace("TCW", TCW_)),
                           ("zero-at-the-first-end", "implies(x0 == x1 and y0 == y1, result == 0)"),
                           ("zero-at-the-second-end", "implies(x0 == x2 and y0 == y2, result == 0)")]))
 
 
+    # ---------------------------------------------------------------- Douglas-Peucker (recursive contract)
+    from specs import C04
+    C04.register(reg)
+    S = "tracklib.algo.simplification:"
+    n = "npts(track)"
+    L = "old(pts(track))"
+    reg.auto_inline |= {"tracklib.core.track:Track.getObsList", "tracklib.core.track:Track.__init__"}
+    # Track(list, user_id=.., track_id=.., base=..): inline; uid / tid / base are opaque values
+    MEMBER = "any(obs(result, q) is %s[p] and %%s for p in range(0, %s))" % (L, n)
+    reg.add(Spec(S + "douglas_peucker", dict(track="Track", eps="float"), "Track", decreases="npts(track)",
+                 requires=["all(implies(a < b, obs(track, a) is not obs(track, b)) for a in range(0, %s) for b in range(0, %s))" % (n, n),
+                           "not isnan(eps) and eps > 0",
+                           "all(not isnan(X(track, r)) and not isnan(Y(track, r)) for r in range(0, %s))" % n],
+                 fresh=["Track"],
+                 hints=[("left-part-indices", "implies((npts(track) > 2 and not (dmax < eps)), all(idxin(%s, obs(ret1_douglas_peucker, q)) == idxin(pts(XY1), obs(ret1_douglas_peucker, q)) "
+                         "and idxin(%s, obs(ret1_douglas_peucker, q)) < imax for q in range(0, npts(ret1_douglas_peucker))))" % (L, L)),
+                        ("right-part-indices", "implies((npts(track) > 2 and not (dmax < eps)), all(idxin(%s, obs(ret2_douglas_peucker, q)) == idxin(pts(XY2), obs(ret2_douglas_peucker, q)) + imax "
+                         "and idxin(%s, obs(ret2_douglas_peucker, q)) >= imax for q in range(0, npts(ret2_douglas_peucker))))" % (L, L)),
+                        ("small-track-is-returned-whole", "implies(npts(track) <= 2, npts(result) == npts(track) and all(obs(result, q) is old(pts(track))[q] and idxin(old(pts(track)), obs(result, q)) == q "
+                         "for q in range(0, npts(track))))"),
+                        ("chord-only", "implies(npts(track) > 2 and dmax < eps, npts(result) == 2 and obs(result, 0) is old(pts(track))[0] and obs(result, 1) is old(pts(track))[npts(track) - 1] and "
+                         "idxin(old(pts(track)), obs(result, 0)) == 0 and idxin(old(pts(track)), obs(result, 1)) == npts(track) - 1)"),
+                        ("left-part-ordered", "implies((npts(track) > 2 and not (dmax < eps)), all(implies(q < q2, idxin(old(pts(track)), obs(ret1_douglas_peucker, q)) < idxin(old(pts(track)), obs(ret1_douglas_peucker, q2))) "
+                         "for q in range(0, npts(ret1_douglas_peucker)) for q2 in range(0, npts(ret1_douglas_peucker))))"),
+                        ("right-part-ordered", "implies((npts(track) > 2 and not (dmax < eps)), all(implies(q < q2, idxin(old(pts(track)), obs(ret2_douglas_peucker, q)) < idxin(old(pts(track)), obs(ret2_douglas_peucker, q2))) "
+                         "for q in range(0, npts(ret2_douglas_peucker)) for q2 in range(0, npts(ret2_douglas_peucker))))"),
+                        ("left-part-members", "implies((npts(track) > 2 and not (dmax < eps)), all(0 <= idxin(old(pts(track)), obs(ret1_douglas_peucker, q)) and old(pts(track))[idxin(old(pts(track)), obs(ret1_douglas_peucker, q))] is obs(ret1_douglas_peucker, q) "
+                         "for q in range(0, npts(ret1_douglas_peucker))))"),
+                        ("right-part-members", "implies((npts(track) > 2 and not (dmax < eps)), all(idxin(old(pts(track)), obs(ret2_douglas_peucker, q)) < npts(track) and old(pts(track))[idxin(old(pts(track)), obs(ret2_douglas_peucker, q))] is obs(ret2_douglas_peucker, q) "
+                         "for q in range(0, npts(ret2_douglas_peucker))))"),
+                        ("result-length", "implies((npts(track) > 2 and not (dmax < eps)), npts(result) == npts(ret1_douglas_peucker) + npts(ret2_douglas_peucker))"),
+                        ("result-left", "implies((npts(track) > 2 and not (dmax < eps)), all(obs(result, q) is obs(ret1_douglas_peucker, q) for q in range(0, npts(ret1_douglas_peucker))))"),
+                        # the same, indexed by the position in the result (so that it can be used from a position of the result)
+                        ("result-right-by-position", "implies((npts(track) > 2 and not (dmax < eps)), all(implies(q >= npts(ret1_douglas_peucker), "
+                         "obs(result, q) is obs(ret2_douglas_peucker, q - npts(ret1_douglas_peucker))) for q in range(0, npts(result))))")],
+                 loops={"1": LoopSpec(inv=["not isnan(dmax) and dmax >= 0", "0 <= imax and imax < n",
+                                           "implies(dmax > 0, 1 <= imax and imax <= n - 2)", "implies(imax == 0, dmax == 0)"])},
+                 ensures=[("new-track", "isnew(result)"),
+                          ("same-size-when-at-most-two-fixes", "implies(%s <= 2, npts(result) == %s)" % (n, n)),
+                          ("keeps-the-first-fix", "implies(%s >= 1, npts(result) >= 1 and obs(result, 0) is %s[0])" % (n, L)),
+                          ("keeps-the-last-fix", "implies(%s >= 1, obs(result, npts(result) - 1) is %s[%s - 1])" % (n, L, n)),
+                          ("only-input-fixes", "all(0 <= idxin(%s, obs(result, q)) and idxin(%s, obs(result, q)) < %s and "
+                           "%s[idxin(%s, obs(result, q))] is obs(result, q) for q in range(0, npts(result)))" % (L, L, n, L, L)),
+                          ("in-the-original-order", "all(implies(q < q2, idxin(%s, obs(result, q)) < idxin(%s, obs(result, q2))) "
+                           "for q in range(0, npts(result)) for q2 in range(0, npts(result)))" % (L, L)),
+                          ("source-unchanged", "same(pts(track), %s)" % L)]))
+
+
 USES_LIB = True
-FUNCTIONS = [G + "distance_to_segment"]
+FUNCTIONS = [G + "distance_to_segment", "tracklib.algo.simplification:douglas_peucker"]
 ASSUMPTIONS = ["math.sqrt: r >= 0 and r*r == x (trusted axiom)"]
